@@ -361,6 +361,46 @@ func (p *Prog) DeepOrigins(v ssa.Value) []Origin {
 	return out
 }
 
+// UpOrigins replaces parameter origins of non-entry functions by the origins of what their
+// call sites pass (two levels), keeping every other origin. Used where a rule asks "does this
+// value come from the message": inside an extracted helper the message amount is a parameter.
+func (p *Prog) UpOrigins(os []Origin, depth int) []Origin {
+	var out []Origin
+	for _, o := range os {
+		pr, isP := o.Val.(*ssa.Parameter)
+		if o.Kind != "param" || !isP || depth > 2 || pr.Parent() == nil || p.handlerSet()[pr.Parent()] {
+			out = append(out, o)
+			continue
+		}
+		sites := p.CallSitesOf(pr.Parent())
+		idx := paramIndex(pr)
+		if len(sites) == 0 || idx < 0 {
+			out = append(out, o)
+			continue
+		}
+		resolved := true
+		var sub []Origin
+		for _, cs := range sites {
+			args := cs.Common().Args
+			if idx >= len(args) {
+				resolved = false
+				break
+			}
+			for _, o2 := range p.DeepOrigins(args[idx]) {
+				o3 := o2
+				o3.Path = append(append([]string{}, o2.Path...), o.Path...)
+				sub = append(sub, o3)
+			}
+		}
+		if !resolved {
+			out = append(out, o)
+			continue
+		}
+		out = append(out, p.UpOrigins(sub, depth+1)...)
+	}
+	return out
+}
+
 // UpStrings renders an origin; a parameter of a function that is called from comdex code
 // is replaced by what its call sites pass (two levels), so that a value handed to an
 // extracted helper is recognised as the caller's value. Names, not objects, are compared:
